@@ -17,7 +17,7 @@ ALIAS_OF = {"\u2192": ["->"], "\u2295": ["+"], "\u29fa": ["~"], "\u21cc": ["<->"
 ALIAS_ATOMS = ["x", "B2", "1", '"s"', "[a,b]", "[", "]", ",", "::", "true", "$V", "X<q>"]
 
 
-def alias_substitution_stream(ctx):
+def alias_substitution_stream(ctx, hm_strict=None):
     """Spelling convergence on ARBITRARY accepted texts, not only content-model documents: every text built from short
     sequences of value atoms and Unicode operators, glued with and without blanks, against the same text with each
     operator occurrence replaced by an ASCII alias. Both must canonicalise to identical bytes (or both be refused)."""
@@ -49,6 +49,28 @@ def alias_substitution_stream(ctx):
                                          "the ASCII-alias spelling of a text does not canonicalise like its Unicode spelling")
                 elif eu is None and cu != uni:
                     ctx.nontrivial(("alias", uni, asc))
+    # bracket payloads the parser captures as TEXT (constructor arguments, section annotations, brackets embedded in a
+    # flow expression): an alias inside must be normalised exactly like the Unicode operator
+    templates = ["A::REQ[x{0}y]\n", "A::ENUM[a{0}b,c{1}d]\n", "A::NEVER[x{0}y]\n", "\u00a71::NAME[a{0}b]\n  K::1\n", "A::S{0}C[l{1}t]{0}D\n",
+                 "A::x{0}y[p{1}q]\n", "A::[k::REQ[a{0}b],z]\n", "B:\n  A::TYPE[u{0}v]\n", "A::X[[a{0}b],c]\n"]
+    for tpl in templates:
+        for u1 in ALIAS_OF:
+            for u2 in list(ALIAS_OF)[:3]:
+                if "\u00a7" in (u1, u2):
+                    continue
+                for a1 in ALIAS_OF[u1]:
+                    a2 = ALIAS_OF[u2][0]
+                    uni, asc = tpl.format(u1, u2), tpl.format(a1, a2)
+                    cu, _, eu = doccases.canon_impl(uni)
+                    ca, _, ea = doccases.canon_impl(asc)
+                    ctx.count()
+                    n += 1
+                    if (eu is None) != (ea is None) or (eu is None and cu != ca):
+                        ctx.property_failure({"stream": "alias substitution (bracket payload)", "unicode_spelling": uni, "alias_spelling": asc,
+                                              "canonical_unicode": cu, "canonical_alias": ca, "refused_unicode": eu, "refused_alias": ea},
+                                             "the ASCII-alias spelling of a text does not canonicalise like its Unicode spelling")
+                    elif eu is None and hm_strict is not None:
+                        hm_strict.append(ca)
     ctx.hist("alias_substitution_pairs", n)
 
 
@@ -129,7 +151,9 @@ def run(ctx):
         loop.close()
         shutil.rmtree(tmp, ignore_errors=True)
     ctx.sample({"canonical": canon_outputs[0][0]})
-    alias_substitution_stream(ctx)
+    _alias_canon = []
+    alias_substitution_stream(ctx, _alias_canon)
+    canon_outputs.extend((c, {"alias_template": True}, []) for c in sorted(set(_alias_canon)))
     # ---- curated inputs whose canonical text exercises corner cases of the strict profile (regressions of repaired defects:
     #      a bare `//` comment must not become `// ` with a trailing blank, 3fa2dc1) ----
     CURATED = ["===D===\n//\nK::1\n===END===\n", "===D===\nB:\n  //\n  K::1\n  //\n===END===\n", "===D===\nK::1\n//\n===END===\n",
